@@ -75,6 +75,12 @@ def definition(rng):
             seen.add(cb["tix"])
         keep.append(cb)
     d["cbs"] = keep
+    # an event named like a state (closed.to(opened, event="opened")): the class attribute of that name is then the event
+    if d["trans"] and rng.random() < 0.25:
+        t = rng.choice(d["trans"])
+        t["evs"] = [t["tgt"]]
+        d["evlist"] = [e for e in dict.fromkeys(e for t_ in d["trans"] for e in t_["evs"])]
+        d["event_named_like_state"] = True
     # state values of every kind (falsy ones included) and display names shared by several states: the picture is
     # about state identity, not about truthiness, values or names
     d["value_scheme"] = gen.assign_values(rng, d, same_name_p=0.3)
